@@ -256,10 +256,15 @@ theorem binopV_total {s : St} {op : BinOp} {a b : Val} {pa pb pv : PyVal} (hk : 
       unfold lshiftLI
       simp only [y0, if_false]
   case rshift =>
-    have hdd := inBits_iff.mp (by simpa [pyDomBin] using hd : inBits s.bitlength a.num = true)
-    cases a <;> cases b <;> simp only [pyGapBin, reduceCtorEq] at hgap
-    simp only [rshiftV, rshiftLV]
-    exact Ok.bind' (rshiftLI_total hg hdd.1 hdd.2) (fun _ _ _ => Ok.pure _ _)
+    simp only [pyBinInt] at hpy
+    split at hpy
+    · cases hpy
+    · rename_i y0
+      have hdd := inBits_iff.mp (by simpa [pyDomBin] using hd : inBits s.bitlength a.num = true)
+      cases a <;> cases b <;> simp only [pyGapBin, reduceCtorEq] at hgap
+      simp only [Val.num_int] at y0
+      simp only [rshiftV, rshiftLV]
+      exact Ok.bind' (rshiftLI_total (not_lt.mp y0) hg hdd.1 hdd.2) (fun _ _ _ => Ok.pure _ _)
   case band =>
     obtain ⟨x1, x2⟩ := pyExclBin_bw (w := .and) rfl hx
     simp only [pyDomBin, Bool.and_eq_true, Bool.or_eq_true, Bool.not_eq_true'] at hd
